@@ -93,6 +93,10 @@ class Exec:
             if e.attr == "__class__":
                 out.append((s1, V(("class",), CLASS_OF(o.term))))
                 continue
+            mc, mfn = self.src.method(cls, e.attr)
+            if mfn is not None and not self.src.is_property(cls, e.attr):
+                out.append((s1, V(("func",), py=("bound", o, e.attr))))       # bound method used as a value
+                continue
             if self.src.is_property(cls, e.attr):
                 c, fn = self.src.method(cls, e.attr)
                 out += self.call_function(fn, c, [o], {}, s1, d + 1)
@@ -149,6 +153,9 @@ class Exec:
             st.oblige("json-value-is-dict", dyn_is_dict(dv.term), "implicit")
             dct = V(("dict", ("str",), ("dyn",)), dyn_ref(dv.term))
             return st.dict_get(dct, key)
+        if key.ty[0] in ("int", "bool"):
+            st.oblige("json-value-is-list", dyn_is_list(dv.term), "implicit")
+            return st.list_get(V(("list", ("dyn",)), dyn_ref(dv.term)), V(("int",), to_int(key)))
         raise Unsupported("subscript on JSON value with non-string key")
 
     def ev_slice(self, e, base, st, d):
